@@ -352,7 +352,21 @@ pub fn run_c12(ctx: &Ctx) -> i32 {
             contents.push(format!("{}{}", f.text, rng.pick_str(&["\n", "  ", " // end", "\n\n"])));
             per_id.push(mine);
         }
-        let w = World::new(&format!("{}-r{}", thread_tag(), i), n_ids, contents);
+        let mut w = World::new(&format!("{}-r{}", thread_tag(), i), n_ids, contents);
+        if rng.chance(1, 2) {
+            // a real source tree: <root>/<package path>/<ItemName>.aidl (tools that look around on disk find neighbours)
+            for (k, f) in pr.files.iter().enumerate() {
+                let mut p = w.dir.join("src");
+                for seg in &f.doc.package {
+                    p = p.join(seg);
+                }
+                let _ = std::fs::create_dir_all(&p);
+                w.ids[k] = p.join(format!("{}.aidl", f.doc.item.name));
+                // the files exist on disk from the start (whether or not the parser has been told about them)
+                let _ = write_with_fixed_mtime(&w.ids[k], f.text.as_bytes());
+            }
+            st.inc("histories_in_a_package_directory_tree");
+        }
         let len = rng.range(5, ctx.tier.pick(25, 40));
         let mut ops = Vec::new();
         for _ in 0..len {
